@@ -79,6 +79,13 @@ static uint32_t pick_ttl(const Profile &p, uint64_t h) {
   return p.ttl_choices[h % p.ttl_choices.size()];
 }
 
+int World::zone_outcome(const dnsref::Name &name, int qtype) const {
+  std::string key = strip_token(name);
+  uint64_t h = hash_mix(hash_str(zone_key, key), (uint64_t)qtype);
+  Rng zr(h);
+  return zr.pick(zone_weights);
+}
+
 static void build_zone_answer(World &w, const Profile &p, const Question &q, Resp &r, ZoneAns &z) {
   std::string key = strip_token(q.name);
   uint64_t h = hash_mix(hash_str(w.zone_key, key), q.type);
@@ -286,6 +293,13 @@ void World::server_handle(VFd &s, bool tcp, const std::string &wire, size_t stre
   tx.id = (int)txs.size(); tx.t = now_us; tx.fd = s.fd; tx.server = s.server_idx; tx.tcp = tcp; tx.wire = wire;
   tx.api_seq = api_seq; tx.cb_depth = cb_depth; tx.stream_off = stream_off;
   tx.decode_err = decode(wire, tx.msg);
+  if (tx.decode_err.find("name longer than 255") != std::string::npos) {
+    // a name of 256/257 octets: malformed by RFC 1035 but self-consistent; decode leniently and report it separately
+    dnsref::g_max_name_octets = 300;
+    tx.decode_err = decode(wire, tx.msg);
+    dnsref::g_max_name_octets = 255;
+    bump("tx_name_over_255_octets");
+  }
   if (tx.decode_err.empty() && !tx.msg.qd.empty()) {
     tx.token = token_of_name(tx.msg.qd[0].name);
     tx.qname_lc = name_lower(name_to_text(tx.msg.qd[0].name));
